@@ -325,6 +325,8 @@ func genArg(r *core.Rand, kind string, i int) string {
 			}
 		}
 		return hex.EncodeToString(b)
+	case strings.HasPrefix(kind, "slist:"):
+		return genStructList(r, kind, i)
 	case strings.HasPrefix(kind, "list:"):
 		n := 0
 		if i > 0 {
@@ -445,4 +447,105 @@ func init() {
 		}
 		return []core.Extra{*Extra(p.ID)}
 	})
+}
+
+// ---------------------------------------------------------------- slices of scalar structs (kind "slist:Name:f=code;…")
+
+// PStructList splits `a/b,c/d` into items of nf fields (`-` = empty list).
+func PStructList(s string, nf int) ([][]string, bool) {
+	if s == "-" {
+		return nil, true
+	}
+	var out [][]string
+	for _, it := range strings.Split(s, ",") {
+		fs := strings.Split(it, "/")
+		if len(fs) != nf {
+			return nil, false
+		}
+		out = append(out, fs)
+	}
+	return out, true
+}
+
+func JoinSlash(xs ...string) string { return strings.Join(xs, "/") }
+
+func SetInt[T ~int | ~int8 | ~int16 | ~int32 | ~int64](p *T, s string) bool {
+	v, err := strconv.ParseInt(s, 10, 64)
+	if err != nil || int64(T(v)) != v {
+		return false
+	}
+	*p = T(v)
+	return true
+}
+
+func SetUint[T ~uint | ~uint8 | ~uint16 | ~uint32 | ~uint64 | ~uintptr](p *T, s string) bool {
+	v, err := strconv.ParseUint(s, 10, 64)
+	if err != nil || uint64(T(v)) != v {
+		return false
+	}
+	*p = T(v)
+	return true
+}
+
+func SetBool[T ~bool](p *T, s string) bool {
+	if s != "true" && s != "false" {
+		return false
+	}
+	*p = T(s == "true")
+	return true
+}
+
+// genStructList: lengths 0..5 first, then up to 12 items; the fields of an item are drawn from a small
+// range (so that equal / ordered / overlapping neighbours are frequent), from an increasing walk
+// (sorted inputs), or from the boundary stream of the scalar kind.
+func genStructList(r *core.Rand, kind string, i int) string {
+	parts := strings.SplitN(kind, ":", 3)
+	if len(parts) != 3 {
+		return ""
+	}
+	var codes []string
+	for _, f := range strings.Split(parts[2], ";") {
+		kv := strings.SplitN(f, "=", 2)
+		if len(kv) != 2 {
+			return ""
+		}
+		codes = append(codes, kv[1])
+	}
+	n := 0
+	switch {
+	case i == 0:
+		n = 0
+	case i < 6:
+		n = i
+	default:
+		n = int(r.Uint64() % 13)
+	}
+	if n == 0 {
+		return "-"
+	}
+	mode := r.Uint64() % 4
+	walk := int64(r.Uint64() % 3)
+	items := make([]string, n)
+	for j := range items {
+		fs := make([]string, len(codes))
+		for k, c := range codes {
+			switch {
+			case c == "bool":
+				fs[k] = genScalar(r, c, 1000)
+			case mode == 0:
+				fs[k] = strconv.Itoa(int(r.Uint64() % 6))
+			case mode == 1 || mode == 2:
+				// increasing walk over the items; within an item later fields are not smaller
+				if mode == 1 && k == 0 && walk > 0 && r.Uint64()%2 == 0 {
+					walk -= int64(r.Uint64() % uint64(walk+1))
+				}
+				walk += int64(r.Uint64() % 4)
+				fs[k] = strconv.FormatInt(walk, 10)
+			default:
+				fs[k] = genScalar(r, c, int(r.Uint64()%40))
+			}
+		}
+		items[j] = strings.Join(fs, "/")
+	}
+	return strings.Join(items, ",")
 }
